@@ -9,6 +9,7 @@ from dataclasses import dataclass, field
 from enum import Flag, auto
 from typing import (
     Any,
+    Optional,
     Union,
     cast,
 )
@@ -341,20 +342,30 @@ class DefaultOperatorResolver(OperatorResolver):
             )
 
         def power(arg: OrderedSet[Term], power: OrderedSet[Term]) -> OrderedSet[Term]:
-            power_term = next(iter(power))
-            if (
-                not len(power_term.factors) == 1
-                or not power_term.factors[0].token
-                or power_term.factors[0].token.kind is not Token.Kind.VALUE
-                or not isinstance(ast.literal_eval(power_term.factors[0].expr), int)
-            ):
+            def parse_exponent(term: Term) -> Optional[int]:
+                if (
+                    not len(term.factors) == 1
+                    or not term.factors[0].token
+                    or term.factors[0].token.kind is not Token.Kind.VALUE
+                ):
+                    return None
+                try:
+                    exponent = ast.literal_eval(term.factors[0].expr)
+                except (ValueError, SyntaxError):
+                    return None
+                if isinstance(exponent, bool) or not isinstance(exponent, int):
+                    return None
+                return exponent if exponent > 0 else None
+
+            exponent = parse_exponent(next(iter(power))) if len(power) == 1 else None
+            if exponent is None:
                 raise exc_for_token(
-                    power_term.factors[0].token or Token(),
+                    (next(iter(power)).factors[0].token if power else None) or Token(),
                     "The right-hand argument of `**` must be a positive integer.",
                 )
             return OrderedSet(
                 functools.reduce(lambda x, y: x * y, term)
-                for term in itertools.product(*[arg] * int(power_term.factors[0].expr))
+                for term in itertools.product(*[arg] * exponent)
             )
 
         def multistage_formula(
